@@ -14,7 +14,7 @@ BOUNDS = {
     "quick": "histories: 3 add_symbols calls of <= 2 symbols each, symbols = solver-chosen indices into a 4-string "
              "vocabulary (repeats reachable), plus clone / combine / add_symbols_mp under every queue interleaving of 2 "
              "producers; ranks: 2 rank files with different vocabularies, set iteration order = any rotation/reversal, "
-             "sequential and pool parsing; independence: 6 analysis entry points run under two different id numberings of "
+             "sequential and pool parsing, also with 70 distinct names per rank (union vocabulary > 127 symbols); independence: 6 analysis entry points run under two different id numberings of "
              "one symbolic 2-kernel trace",
     "thorough": "4 calls x <= 2 symbols; 3 ranks; 3 producers; independence on 4 traces",
 }
@@ -51,6 +51,9 @@ def skeletons(tier):
         out.append({"id": f"ranks2-pool{int(mpool)}", "fam": "ranks", "nranks": 2, "params": {"pool": mpool}})
         if tier == "thorough":
             out.append({"id": f"ranks3-pool{int(mpool)}", "fam": "ranks", "nranks": 3, "params": {"pool": mpool}})
+    for mpool in (False, True):
+        out.append({"id": f"ranks2-bigvocab-pool{int(mpool)}", "fam": "ranks", "nranks": 2,
+                    "params": {"pool": mpool, "big": 70 if tier == "quick" else 140}})
     words = ["CN"] if tier == "quick" else ["CNM", "CCN", "NNM", "CN", "CM"]
     for w in words:
         out.append({"id": f"indep-{w}", "fam": "indep", "word": w, "params": {"nrot": 2 if tier == "quick" else 5}})
@@ -235,9 +238,14 @@ RANK_EVENTS = [
 def run_ranks(ctx):
     n = ctx.sk["nranks"]
     events, info = {}, {}
+    big = ctx.params.get("big", 0)
     for r in range(n):
         ev, inf = [], []
-        for i, (name, cat) in enumerate(RANK_EVENTS[r]):
+        rank_events = list(RANK_EVENTS[r])
+        # many distinct operator names per rank: the union vocabulary then exceeds 127 symbols while each rank's
+        # local vocabulary stays below (ids are downcast to the narrowest integer dtype per rank)
+        rank_events += [(f"aten::op_r{r}_{k}", "cpu_op") for k in range(big)]
+        for i, (name, cat) in enumerate(rank_events):
             ts, dur = f"$r{r}e{i}_ts", f"$r{r}e{i}_dur"
             if cat == "cpu_op":
                 ev.append(TG.op(name, ts, dur))
@@ -250,12 +258,14 @@ def run_ranks(ctx):
     ta = ctx.open(events, load=False)
     if ctx.mode == "sym":
         NDSet.ctx = ctx
+        NDSet.forced = (0, 0) if big else None      # big vocabularies: one iteration order (2m orders otherwise)
         ctx.mods["hta.common.trace_parser"].__dict__["set"] = NDSet
     try:
         ta.t.parse_traces(use_multiprocessing=ctx.params["pool"])
     finally:
         if ctx.mode == "sym":
             NDSet.ctx = None
+            NDSet.forced = None
     st = ta.t.symbol_table
     check_bijection(ctx, st, "global")
     tab = st.get_sym_table()
